@@ -14,7 +14,7 @@ def run(rep, tier, seed):
     v2 = native.run('k_traverse', 'validate_ranks', {})
     if v2['n_bad'] or v2['nodes'] < 20:
         rep.checker_error(f'rank tables disagree with CPython positions: {v2}')
-    verify_all(rep, specs + k_traverse.special_specs('C14'))
+    verify_all(rep, specs + k_traverse.special_specs('C14') + k_traverse.soc_specs('C14'))
     rep.extra['not_proved'] = notes
     rep.trusted.append('ORDER table (syntactic field order per AST class) written from the grammar; validated against '
                        'CPython (lineno, col_offset) order on every node of the corpus on every run')
